@@ -1,4 +1,4 @@
 SPECIFICATION Spec
-CONSTANTS MaxArgs = 2  Rich = TRUE  AllFlags = FALSE  Emit = TRUE
+CONSTANTS MaxArgs = 2  Rich = TRUE  AllFlags = FALSE  Emit = TRUE  SingleAllFlags = TRUE
 INVARIANTS GenWellFormed RoundTrip PrefixIncomplete ConsumeWhole LenOrderFree Stable DeclaredOk Emitter
 CHECK_DEADLOCK FALSE
